@@ -32,7 +32,7 @@ LuLemma ==
        /\ \A j \in 1 .. Min(m, n) : S.piv[j] = I.ipiv[j]
 
 SolveLemma ==
-  Fam \in {"lu", "chol"} =>
+  Fam \in {"lu", "chol", "pb"} =>
     LET n == I.n
         A == Z0(I.A, I.m, n)
         X == Z0(I.X, n, I.R)
@@ -56,7 +56,7 @@ CholFrom(A, L, j, n) ==
                           IF c # j THEN L[i][c] ELSE IF i = j THEN s ELSE IF i > j THEN num(i) \div s ELSE 0])]), j + 1, n)
 
 CholLemma ==
-  Fam = "chol" =>
+  Fam \in {"chol", "pb"} =>
     LET n == I.n
         A == Z0(I.A, n, n)
         S == CholFrom(A, Mat(n, n, LAMBDA i, j : 0), 0, n)
@@ -175,16 +175,17 @@ TdLemma ==
 
 AuxLemma ==
   Fam = "aux" =>
-    LET m == I.m
-        n == I.n
-    IN /\ {I.kc[j] : j \in 1 .. n} = 0 .. n - 1
-       /\ {I.kr[i] : i \in 1 .. m} = 0 .. m - 1
+    LET J == TLCEval(I)      \* evaluate the instance once
+        m == J.m
+        n == J.n
+    IN /\ {J.kc[j] : j \in 1 .. n} = 0 .. n - 1
+       /\ {J.kr[i] : i \in 1 .. m} = 0 .. m - 1
        \* backward undoes forward
-       /\ \A i \in 1 .. m, j \in 1 .. n : I.pcF[i][j] = I.A[i][I.kc[j] + 1] /\ I.pcB[i][I.kc[j] + 1] = I.A[i][j]
-       /\ \A i \in 1 .. m, j \in 1 .. n : I.prF[i][j] = I.A[I.kr[i] + 1][j] /\ I.prB[I.kr[i] + 1][j] = I.A[i][j]
-       /\ I.k2 >= I.k1 - 1 /\ \A k \in 1 .. I.k2 + 1 : I.ipiv[k] >= 0 /\ I.ipiv[k] < Max(m, 1)
+       /\ \A i \in 1 .. m, j \in 1 .. n : J.pcF[i][j] = J.A[i][J.kc[j] + 1] /\ J.pcB[i][J.kc[j] + 1] = J.A[i][j]
+       /\ \A i \in 1 .. m, j \in 1 .. n : J.prF[i][j] = J.A[J.kr[i] + 1][j] /\ J.prB[J.kr[i] + 1][j] = J.A[i][j]
+       /\ J.k2 >= J.k1 - 1 /\ \A k \in 1 .. J.k2 + 1 : J.ipiv[k] >= 0 /\ J.ipiv[k] < Max(m, 1)
        \* norms: max <= one-norm, max <= inf-norm
-       /\ I.nge[1] <= I.nge[2] /\ I.nge[1] <= I.nge[3]
+       /\ J.nge[1] <= J.nge[2] /\ J.nge[1] <= J.nge[3]
 
 \* n x n integer matrices
 MMul(X, Y, n) == Mat(n, n, LAMBDA i, j : SumR(LAMBDA t : X[i][t] * Y[t][j], 0, n - 1))
